@@ -1610,7 +1610,21 @@ func (db *DB) writeWALFrameData(ctx context.Context, f *os.File, data []byte, of
 }
 
 func (db *DB) buildTxFrameOffsets(walFile *os.File) (_ map[uint32]int64, commit, chksum1, chksum2 uint32, endOffset int64, err error) {
-	m := make(map[uint32]int64)
+	m := make(map[uint32]int64)  // pages of the complete transactions read so far
+	tx := make(map[uint32]int64) // pages of the transaction being read
+
+	// State as of the last commit frame. SQLite may append more than one commit
+	// frame while it holds the write lock: it repeats the commit frame to fill
+	// the sector when the file system does not promise powersafe overwrites
+	// and it can commit several transactions under one lock in exclusive
+	// locking mode. Everything up to the last commit frame is captured.
+	var retChksum1, retChksum2 uint32
+	done := func() (map[uint32]int64, uint32, uint32, uint32, int64, error) {
+		if commit == 0 {
+			return nil, 0, 0, 0, 0, errNoTransaction
+		}
+		return m, commit, retChksum1, retChksum2, endOffset, nil
+	}
 
 	offset := db.wal.offset
 	chksum1, chksum2 = db.wal.chksum1, db.wal.chksum2
@@ -1620,7 +1634,7 @@ func (db *DB) buildTxFrameOffsets(walFile *os.File) (_ map[uint32]int64, commit,
 		if _, err := internal.ReadFullAt(walFile, frame, offset); err == io.EOF || err == io.ErrUnexpectedEOF {
 			TraceLog.Printf("[buildTxFrames(%s)]: msg=read-error offset=%d size=%d err=%q",
 				db.name, offset, len(frame), err)
-			return nil, 0, 0, 0, 0, errNoTransaction
+			return done()
 		} else if err != nil {
 			return nil, 0, 0, 0, 0, fmt.Errorf("read wal frame: %w", err)
 		}
@@ -1631,7 +1645,7 @@ func (db *DB) buildTxFrameOffsets(walFile *os.File) (_ map[uint32]int64, commit,
 		if db.wal.salt1 != salt1 || db.wal.salt2 != salt2 {
 			TraceLog.Printf("[buildTxFrames(%s)]: msg=salt-mismatch offset=%d hdr-salt1=%08x hdr-salt2=%08x frame-salt1=%08x frame-salt2=%08x",
 				db.name, offset, db.wal.salt1, db.wal.salt2, salt1, salt2)
-			return nil, 0, 0, 0, 0, errNoTransaction
+			return done()
 		}
 
 		// Verify checksum
@@ -1642,20 +1656,24 @@ func (db *DB) buildTxFrameOffsets(walFile *os.File) (_ map[uint32]int64, commit,
 		if chksum1 != fchksum1 || chksum2 != fchksum2 {
 			TraceLog.Printf("[buildTxFrames(%s)]: msg=chksum-mismatch offset=%d chksum1=%08x chksum2=%08x frame-chksum1=%08x frame-chksum2=%08x",
 				db.name, offset, chksum1, chksum2, fchksum1, fchksum2)
-			return nil, 0, 0, 0, 0, errNoTransaction
+			return done()
 		}
 
 		// Save the offset for the last version of the page to a map.
 		pgno := binary.BigEndian.Uint32(frame[0:])
-		m[pgno] = offset
-
-		// End of transaction, exit loop and return.
-		if commit = binary.BigEndian.Uint32(frame[4:]); commit != 0 {
-			return m, commit, chksum1, chksum2, offset + int64(len(frame)), nil
-		}
+		tx[pgno] = offset
 
 		// Move to the next frame.
 		offset += int64(len(frame))
+
+		// End of transaction, remember the state and look for another one.
+		if c := binary.BigEndian.Uint32(frame[4:]); c != 0 {
+			for pgno, off := range tx {
+				m[pgno] = off
+			}
+			tx = make(map[uint32]int64)
+			commit, retChksum1, retChksum2, endOffset = c, chksum1, chksum2, offset
+		}
 	}
 }
 
